@@ -91,7 +91,7 @@ def run(module: str, cfg: str, tag: str, workers: int | str = 16, timeout: int =
     cfgp = os.path.join(d, module + ".cfg")
     with open(cfgp, "w") as f:
         f.write(cfg)
-    cmd = ["java", "-XX:+UseParallelGC", "-Xmx" + heap]
+    cmd = ["java", "-XX:+UseParallelGC", "-Xmx" + heap, "-Xss64m"]      # deep operator recursion (Quiesce inside a 100-second jump)
     if dfs_queue:
         cmd.append("-Dtlc2.tool.queue.IStateQueue=StateDeque")
     cmd += ["-cp", JAR, "tlc2.TLC", "-workers", str(workers), "-metadir", os.path.join(d, "meta"),
@@ -155,7 +155,7 @@ def must_ok(res: dict, what: str = ""):
     out = res["out"]
     bad = ("Parse Error" in out or "Semantic error" in out or "TLC threw an unexpected exception" in out
            or "was not in the domain" in out or "Attempted to" in out or "Unknown operator" in out
-           or "java.lang." in out and "Exception" in out)
+           or "java.lang." in out and "Exception" in out or "StackOverflowError" in out or "OutOfMemoryError" in out)
     if bad and not res["violated"]:
         raise TlcError("TLC failed (%s): see %s/tlc.out\n%s" % (what, res["dir"], out[-3000:]))
 
